@@ -1919,6 +1919,111 @@ def dump_table(repo, run, rule):
         run.ok(rule, fi, 'dump entry (%d rows)' % rows, 'tree / stream / options reach PyYAML; dumper: own class, empty flag stack, caller\'s exclusions; text only without output; own file closed')
 
 
+def propagate_implicit_table(repo, run, rule, flags=('delete', 'allow_new')):
+    """ComposedNode._propagate_implicit_values evaluated over (the node's explicit flag, the value it inherited, what a child has
+    recorded as inherited) for delete and allow_new: a node WITHOUT an explicit flag hands the value it inherited on to its children
+    (and, when that changed something, to theirs); a node WITH an explicit flag - true or false - leaves what its children recorded
+    alone: they inherited the explicit flag when they were attached, the node's own inherited value must not replace it"""
+    fi = repo.func('ComposedNode._propagate_implicit_values')
+    bad = []
+    rows = 0
+    for flag in flags:
+        for e in (None, True, False):
+            for i in (None, True, False):
+                for c in (None, True, False):
+                    if i is None:
+                        continue        # nothing inherited: the function returns at once (covered by the other rows' complement)
+                    gc = node_obj('grandchild', 'ConfigNode', **{'_implicit_' + flag: c})
+                    child = node_obj('child', 'ConfigDict', _children={'g': gc}, **{'_implicit_' + flag: c})
+                    me = node_obj('node', 'ConfigDict', _children={'k': child}, **{'_' + flag: e, '_implicit_' + flag: i})
+                    ev_ = FDE(repo)
+                    r = fde_guard(lambda: ev_.call(fi, me))
+                    rows += 1
+                    want = i if e is None else c
+                    got = child.f.get('_implicit_' + flag)
+                    # (the evaluator records the recursive call instead of unfolding it: the change travels down when the child is re-propagated)
+                    went_down = any(x[0] == 'call' and x[1] == '_propagate_implicit_values' and x[2] is child for x in ev_.effects)
+                    got_g = want if went_down or got is c else gc.f.get('_implicit_' + flag)
+                    what = 'a node with explicit %s=%r that inherited %r, child recorded %r' % (flag, e, i, c)
+                    if r.raised:
+                        bad.append('%s: raises %s' % (what, r.raised))
+                    elif got is not want:
+                        bad.append('%s: afterwards the child records %r as inherited, expected %r%s' % (what, got, want, ' (the explicit flag of the node is what its children inherit)' if e is not None else ''))
+                    elif e is None and got_g is not want:
+                        bad.append('%s: the child is updated but not re-propagated: its own children keep %r' % (what, got_g))
+    run.table(rule, rows, 'explicit flag x inherited value x child record, for %s' % ' / '.join(flags))
+    if bad:
+        run.violation(rule, fi, 'propagation table', bad[0] + (' [%d rows]' % len(bad) if len(bad) > 1 else ''), witness=bad[:4])
+    else:
+        run.ok(rule, fi, 'propagation of inherited %s (%d rows)' % (' / '.join(flags), rows), 'only a node without an explicit flag passes its inherited value on')
+
+
+def fstr_wrap_table(repo, run, rule):
+    """what the !fstr constructor makes of the tagged text, evaluated (the node type it hands to _make_node is applied to texts; the
+    FStrNode constructor's own validation decides whether a text is accepted as it is): a text that already is an f-string literal
+    is taken verbatim; any other text becomes a Python f-string literal whose constant parts are exactly that text - for every text
+    without backslashes, with or without apostrophes, double quotes and replacement fields (the result is parsed with the stdlib
+    parser, not executed)"""
+    fi = repo.func('yaml._fstr_constructor')
+    init = repo.func('FStrNode.__init__')
+    cap = []
+
+    def stub(n, recv, a, k):
+        if n == '_make_node':
+            cap.append((k.get('node_type'), k.get('parse_scalars')))
+            return 'NODE'
+        return None
+
+    def mk(value, *a, **k):
+        f2 = FDE(repo, stubs={'__init__'}, stub=lambda *x: None)
+        r_ = f2.call(init, node_obj('fs', 'FStrNode'), value)
+        if r_.raised:
+            raise Raised(r_.raised)
+        return ('FSTR', value)
+    f = FDE(repo, stubs={'_make_node'}, stub=stub)
+    f.constructors = {'FStrNode': mk}
+    r = fde_guard(lambda: f.call(fi, Obj('loader', 'AwesomeyamlLoader'), Obj('ynode', 'yaml.Node')))
+    if r.raised or len(cap) != 1 or cap[0][0] is None:
+        raise AnalysisError('%s: the node type the !fstr constructor hands to _make_node was not found' % rule)
+    bad = []
+    rows = 0
+    if cap[0][1] is not False:
+        bad.append('the tagged text is parsed as a YAML scalar first (parse_scalars=%r): `!fstr 1e3` would not reach the node as text' % (cap[0][1],))
+    for text, fields in (('plain', 0), ("it's {x}", 1), ('say "hi"', 0), ("'", 0), ("a'b'c {n} d'", 1), ("{a}'{b}", 2), ("f'x {y}'", 1), ('f"z\'s"', 0), ('', 0), ('f', 0), ("f'", 0)):
+        rows += 1
+        try:
+            v = fde_guard(lambda: f._apply(cap[0][0], [text], {}, None))
+        except Raised as ex:
+            bad.append('!fstr %r: %s' % (text, ex.exc))
+            continue
+        if not (isinstance(v, tuple) and len(v) == 2 and v[0] == 'FSTR' and isinstance(v[1], str)):
+            raise AnalysisError('%s: result of the !fstr node type not recognised (%r)' % (rule, v))
+        src = v[1]
+        literal = len(text) >= 3 and text[0] == 'f' and text[1] in '"\'' and text[1] == text[-1]
+        if literal:
+            if src != text:
+                bad.append('!fstr %r is already an f-string literal but is rewritten to %r' % (text, src))
+            continue
+        try:
+            tree = ast.parse(src, mode='eval').body
+        except SyntaxError:
+            bad.append('!fstr %r becomes the source %s, which is not valid Python (the node fails with a SyntaxError when evaluated)' % (text, src))
+            continue
+        parts = tree.values if isinstance(tree, ast.JoinedStr) else [tree]
+        const = ''.join(p_.value for p_ in parts if isinstance(p_, ast.Constant) and isinstance(p_.value, str))
+        nf = sum(isinstance(p_, ast.FormattedValue) for p_ in parts)
+        want_const = text
+        import re as _re
+        want_const = _re.sub(r'\{[^{}]*\}', '', text)
+        if not isinstance(tree, (ast.JoinedStr, ast.Constant)) or const != want_const or nf != fields:
+            bad.append('!fstr %r becomes %s: an f-string with the constant text %r and %d field(s), expected the text %r and %d field(s)' % (text, src, const, nf, want_const, fields))
+    run.table(rule, rows, '!fstr texts (apostrophes, double quotes, fields, already literal)')
+    if bad:
+        run.violation(rule, fi, '!fstr text wrapping', bad[0] + (' [%d rows]' % len(bad) if len(bad) > 1 else ''), witness=bad[:4])
+    else:
+        run.ok(rule, fi, '!fstr text wrapping (%d rows)' % rows, 'f-string literals verbatim, other texts quoted with their apostrophes escaped')
+
+
 def tag_spec(repo, run, rule, tags):
     """the constructor registered for each of the given tags builds the node class the tag stands for, with the documented data
     handling (which argument receives the YAML value, whether scalars are parsed, whether a mapping is the data or the arguments) - and
